@@ -119,4 +119,47 @@ def handleGtargets : List String → String
   | self :: next :: cp :: gs => encNats (genericTargets self.toNat! next.toNat! (decPR cp) (gs.map decPR))
   | _ => "bad-op"
 
+/-- prefix encoding: T, F, i<n>, c<v>, s<a>, l<a>, t<a>, y<a>, b<op> e e, n e, p e -/
+def decIExpr : Nat → List String → Option (IExpr × List String)
+  | 0, _ => none
+  | _ + 1, [] => none
+  | fuel + 1, t :: ts =>
+    let n := (t.drop 1).toString.toNat!
+    if t == "T" then some (.tru, ts) else if t == "F" then some (.fls, ts)
+    else if t.startsWith "i" then some (.ident n, ts)
+    else if t.startsWith "c" then some (.const n, ts)
+    else if t.startsWith "s" then some (.size n, ts)
+    else if t.startsWith "l" then some (.len n, ts)
+    else if t.startsWith "t" then some (.lenTrim n, ts)
+    else if t.startsWith "y" then some (.typ n, ts)
+    else if t.startsWith "b" then
+      match decIExpr fuel ts with
+      | some (l, r1) => match decIExpr fuel r1 with
+        | some (r, r2) => some (.bin n l r, r2)
+        | none => none
+      | none => none
+    else if t == "n" then (decIExpr fuel ts).map fun (e, r) => (.neg e, r)
+    else if t == "p" then (decIExpr fuel ts).map fun (e, r) => (.paren e, r)
+    else none
+
+def encITok : ITok → String
+  | .tru => "T" | .fls => "F" | .arg n => s!"@{n}" | .num v => toString v
+  | .size a => s!"size(@{a},kind=K)" | .len a => s!"len(@{a},kind=K)" | .lenTrim a => s!"len_trim(@{a},kind=K)"
+  | .shType c => s!"#{c}"
+  | .op 1 => "+" | .op 2 => "-" | .op 3 => "*" | .op 4 => "/" | .op o => s!"?{o}"
+  | .lp => "(" | .rp => ")"
+
+/-- `implied <a:code,...  sh_type codes of the wrapped function's own arguments> <prefix tokens>` -/
+def handleImplied : List String → String
+  | tab :: toks =>
+    let pairs := if tab == "-" then [] else (tab.splitOn ",").map fun p =>
+      match p.splitOn ":" with
+      | [a, c] => (a.toNat!, c.toNat!)
+      | _ => (0, 0)
+    let sh := fun a => ((pairs.find? (fun p => p.1 == a)).map (·.2)).getD 0
+    match decIExpr (toks.length + 1) toks with
+    | some (e, []) => "".intercalate ((e.render sh).map encITok)
+    | _ => "bad-expr"
+  | _ => "bad-op"
+
 end Driver
